@@ -97,7 +97,20 @@ def Record.setItem (r : Record) (key : Key) (x : RCol) : Record × Except PyErr 
         match x.col.index with
         | none => .ok { x with col := { x.col with index := some (r.slots.length : Int) } }
         | some _ => .ok x
-    match step2 with
+    -- 3. refuse, before the record is touched, a negative index or one whose slot
+    --    holds a column with another name
+    let step3 : Except PyErr RCol :=
+      match step2 with
+      | .error e => .error e
+      | .ok x =>
+        match x.col.index with
+        | none => .ok x
+        | some ci =>
+          if ci < 0 then .error .value
+          else match r.slots.getD ci.toNat none with
+            | some occ => if occ.col.key ≠ k then .error .value else .ok x
+            | none => .ok x
+    match step3 with
     | .error e => (r, .error e)
     | .ok x =>
       let r1 := { r with dict := tdictSet r.dict k x }
